@@ -25,7 +25,7 @@ RULE = (
     "steps / a few huge ones / one step of 1e8). Non-trivial = the field developed a gradient "
     "larger than 1e-3 R at some stored level; distinct = descriptor hash."
 )
-MIN_NONTRIVIAL = {"quick": 120, "thorough": 9000}
+MIN_NONTRIVIAL = {"quick": 90, "thorough": 8500}
 SHARDS = {"quick": 4, "thorough": 16}
 GENERATOR = {"nx": [3, 4, 5, 10, 30, 80, 200, 400], "nt": "2..300", "p_f/p_i": [0.01, 0.1, 0.3, 0.5, 0.7, 0.9, 0.99, 0.999, 1.0, "random"]}
 ASSUMPTIONS = [
